@@ -43,6 +43,7 @@ theorem idx_ite (b : Bytes) (i : Int) : idx b i = if 0 ≤ i ∧ i.toNat < b.len
     · simp [h0, h1]
   · simp [h0]
 theorem make_ite (n : Int) : make n = if 0 ≤ n then X.ok (List.replicate n.toNat 0) else X.panic := rfl
+theorem makeCap_ite (n c : Int) : makeCap n c = if 0 ≤ n ∧ n ≤ c then X.ok (List.replicate n.toNat 0) else X.panic := rfl
 
 /-- the run returned a value (no panic, fuel not exhausted) -/
 def X.isOk {α} : X α → Bool
@@ -59,7 +60,7 @@ theorem X.isOk_panic {α} : ((X.panic : X α).isOk = true) ↔ False := by simp 
 
 /-- every branch returns a value: the `panic` branches contradict the guards on their path -/
 macro "go_total" : tactic => `(tactic| (
-  try simp only [sliceTo, sliceFrom, slice, putU16At, putU32At, setIdx, Go.be16, Go.be32, List.length_replicate, List.length_set, List.length_append, List.length_cons, List.length_nil, idx_ite, u16_ite, u32_ite, u64_ite, make_ite, bind_ite', X.bind_ok, X.bind_panic, len_eq,
+  try simp only [sliceTo, sliceFrom, slice, putU16At, putU32At, setIdx, Go.be16, Go.be32, List.length_replicate, List.length_set, List.length_append, List.length_cons, List.length_nil, idx_ite, u16_ite, u32_ite, u64_ite, make_ite, makeCap_ite, bind_ite', X.bind_ok, X.bind_panic, len_eq,
     List.length_take, List.length_drop]
   simp only [X.isOk_ite_iff, X.isOk_ok, X.isOk_panic, bind_ite', X.bind_ok, X.bind_panic, implies_true, and_true, true_and]
   repeat' (first | (intro _) | constructor)
